@@ -127,6 +127,38 @@ fn upgraded_handler(
             lock(rec).upgraded.push((String::new(), rec_bytes));
         }
     }
+    if mode == 5 {
+        // V5: newline-terminated records like V2, but written against fill_buf()/consume() directly
+        // and with `?` on every I/O result: a read interrupted by a signal ends the call with an error
+        let mut acc: Vec<u8> = Vec::new();
+        loop {
+            let (lines, used) = {
+                let b = bufreader.fill_buf().map_err(varlink::map_context!())?;
+                if b.is_empty() {
+                    return Ok(acc);
+                }
+                let mut lines: Vec<Vec<u8>> = Vec::new();
+                let mut start = 0usize;
+                for (i, c) in b.iter().enumerate() {
+                    if *c == b'\n' {
+                        let mut l = std::mem::take(&mut acc);
+                        l.extend_from_slice(&b[start..=i]);
+                        lines.push(l);
+                        start = i + 1;
+                    }
+                }
+                acc.extend_from_slice(&b[start..]);
+                (lines, b.len())
+            };
+            bufreader.consume(used);
+            for line in lines {
+                lock(rec).upgraded.push((String::new(), line.clone()));
+                call.writer.write_all(b"ack:").map_err(varlink::map_context!())?;
+                call.writer.write_all(&line).map_err(varlink::map_context!())?;
+                call.writer.flush().map_err(varlink::map_context!())?;
+            }
+        }
+    }
     // V2: newline-terminated records; acknowledges each; an incomplete record is returned as unread
     // V3: like V2, but (as the repository's ping example does) a batch ends with the record "End\n":
     //     the handler returns there and is called again for the next batch
